@@ -84,6 +84,9 @@ func runFloat(in input) driver.Result {
 	bad := func(format string, a ...any) { problems = append(problems, fmt.Sprintf(format, a...)) }
 	t := fltTypes[in.T]
 	check := func(entry, lit string, got complex128, gerr error, paniced bool) {
+		if in.E == 4 {
+			lit = strings.TrimSpace(lit) // slice elements and map values are trimmed before parsing
+		}
 		want, werr := expect(in.T, lit)
 		switch {
 		case paniced:
@@ -158,7 +161,7 @@ func runFloat(in input) driver.Result {
 		})
 		allOK := true
 		for _, lit := range in.L {
-			if _, werr := expect(in.T, lit); werr != nil {
+			if _, werr := expect(in.T, strings.TrimSpace(lit)); werr != nil {
 				allOK = false
 			}
 		}
@@ -175,7 +178,7 @@ func runFloat(in input) driver.Result {
 				bad("parse.String(%q) at []%s returned %d elements", joined, in.T, len(got))
 			} else {
 				for i, lit := range in.L {
-					want, _ := expect(in.T, lit)
+					want, _ := expect(in.T, strings.TrimSpace(lit))
 					if !sameComplex(got[i], want) {
 						bad("parse.String(%q) at []%s element %d is %v, strconv at the target size gives %v", joined, in.T, i, got[i], want)
 					}
